@@ -306,6 +306,7 @@ func (p *Program) Func(rel, recv, name string) *ssa.Function {
 	if sp == nil {
 		return nil
 	}
+	recv, name = p.currentName(rel, recv, name)
 	if recv == "" {
 		return sp.Func(name)
 	}
@@ -335,12 +336,28 @@ func (p *Program) Func(rel, recv, name string) *ssa.Function {
 	return nil
 }
 
+// currentName translates a reference-tree (receiver, function) name into the names used by the analysed tree.
+func (p *Program) currentName(rel, recv, name string) (string, string) {
+	path := modPath
+	if rel != "" {
+		path += "/" + rel
+	}
+	if c, ok := renameFnInv[funcID{path, recv, name}]; ok {
+		return c.recv, c.name
+	}
+	if recv != "" {
+		recv = curTypeName(path, recv)
+	}
+	return recv, name
+}
+
 // FuncDecl returns the syntax of a function/method declared in package rel.
 func (p *Program) FuncDecl(rel, recv, name string) *ast.FuncDecl {
 	pk := p.Pkg(rel)
 	if pk == nil {
 		return nil
 	}
+	recv, name = p.currentName(rel, recv, name)
 	for _, f := range pk.Syntax {
 		for _, d := range f.Decls {
 			fd, ok := d.(*ast.FuncDecl)
